@@ -8,9 +8,10 @@ D=$1; W=$2
 cd "$W" || exit 2
 git checkout -q -- . && git clean -qfd
 DEMO=$(ls "$D"/*.rs | head -1); NAME=$(basename "$DEMO" .rs)
-DEST=$(grep -o "cp [^ ]*$NAME.rs [^ ]*" "$D/README.md" | head -1 | awk '{print $3}'); DEST=${DEST:-zlink-core/tests/}
+README=$(mktemp); sed -e ':a' -e '/\\$/N; s/\\\n */ /; ta' "$D/README.md" > "$README"
+DEST=$(grep -o "cp [^ ]*$NAME.rs [^ ]*" "$README" | head -1 | awk '{print $3}'); DEST=${DEST:-zlink-core/tests/}
 case "$DEST" in /*) DEST=${DEST#$W/}; DEST=${DEST#/tmp/wt-*/};; esac
-CMD=$(grep -o "cargo test [^\`]*--test $NAME[^\`]*" "$D/README.md" | head -1); CMD=${CMD:-cargo test -p zlink-core --offline --test $NAME}
+CMD=$(grep -o "cargo test [^\`]*--test $NAME[^\`]*" "$README" | head -1); CMD=${CMD:-cargo test -p zlink-core --offline --test $NAME}
 case "$DEST" in *.rs) mkdir -p "$(dirname "$DEST")"; cp "$DEMO" "$DEST"; INST="$DEST";; *) mkdir -p "$DEST"; cp "$DEMO" "$DEST/"; INST="$DEST/$NAME.rs";; esac
 export CARGO_NET_OFFLINE=true
 $CMD > "$D/confirm_demo_clean.log" 2>&1; A=$?
